@@ -241,7 +241,7 @@ for _k in ('DynamicTimeSeriesBucket', 'DynamicBucket', 'DynamicBucketDataset'):
 
 
 PROP_SEARCH = {'C09': 'isolation', 'C10': 'cache_histories', 'C14': 'catch_epochs', 'C15': 'split_exhaustive',
-               'C18': 'sort_group', 'C20': 'profiling_transparency'}
+               'C18': 'sort_group', 'C20': 'profiling_transparency', 'C19': 'database'}
 
 
 def _prop_search(rep):
